@@ -22,7 +22,8 @@ RULE = ("source strings = all strings up to a length bound over {\\\\, *, ?, \",
         "longer ones; x escaping configurations (escape char, single- and multi-character wildcard tokens, quote, extra "
         "escaped, filter; quoted and unquoted); regex form compared with Python re.fullmatch on all subjects <= 4 over the "
         "pattern's alphabet; field names over {a, space, \\\\, ', \", .}; distinct = distinct (kind, source); "
-        "non-trivial = contains a backslash, wildcard, quote or filtered character")
+        "non-trivial = contains a backslash, wildcard, quote or filtered character"
+        "; escaping configurations incl. quote among the filtered characters and conditional quoting; values obtained by stripping wildcards; regex literals with and without a string layer; field configurations incl. a derived backend class")
 ASSUMPTIONS = [
     "the Sigma escaping rules (backslash escapes a following backslash/wildcard, is literal otherwise) are the specification of the source reading",
     "target-language reading of a literal = greedy token reading (escape, multi-token, single-token, plain); Python's re is the target for the regex form",
